@@ -1,31 +1,54 @@
 #!/usr/bin/env python3
-"""Writes the seeded-change table (DESIGN.md §13.5) from seeded/*/meta.json, between the SEEDTABLE markers."""
+"""Writes the seeded-change table (DESIGN.md §13.5) from seeded/*/meta.json, between the SEEDTABLE markers.
+
+Columns: which registered check reports a violation, the first CONTRACT obligation that fails (the deductive part) and
+the first class a bounded stand-in reports (if any); "missed" when no check of the properties scanned reports anything.
+"""
 import json, os, re
 V = "/verif"
 rows = []
+n_contract = n_bounded_only = n_missed = 0
 for sid in sorted(os.listdir(V + "/seeded")):
     mp = f"{V}/seeded/{sid}/meta.json"
     if not os.path.exists(mp):
         continue
     m = json.load(open(mp))
-    what = re.sub(r"^(C\d+\s+)?[Cc]hange\s*\d*\s*[:—–-]*\s*", "", m.get("what", "")).strip()
-    what = what.replace("|", "/")[:110]
+    what = re.sub(r"^(Seed\s*\d+\s*[/ ]*)?(C\d+\s*[/ ]*)?([Ss]eeded\s+)?[Cc]hange\s*\d*\s*(\([^)]*\))?\s*[:—–-]*\s*", "", m.get("what", "")).strip()
+    what = what.replace("|", "/")[:100]
     caught = m.get("caught_by", [])
     det = m.get("detection", {})
+    cob, bnd = "", ""
+    for p in caught:
+        d = det.get(p, {})
+        obs = d.get("obligations") or []
+        if obs and not cob:
+            ob = obs[0]
+            ob = ob.split(").")[-1] if ")." in ob else ob
+            cob = f"{p}: `{ob}`"
+        bs = d.get("bounded_standins") or []
+        if bs and not bnd:
+            bnd = f"{p}: `{bs[0].replace('bounded.', '')}`"
     if caught:
-        p = caught[0]
-        ob = det.get(p, {}).get("obligations", [""])[0]
-        ob = ob.split(").")[-1] if ")." in ob else ob.split(".", 1)[-1]
-        res = f"**{', '.join(caught)}**: `{ob}`" + (" (failing input found)" if det.get(p, {}).get("failing_input_found") else "")
+        if cob:
+            n_contract += 1
+        else:
+            n_bounded_only += 1
+        res = f"**{', '.join(caught)}**"
     else:
+        n_missed += 1
         res = "missed" + (f" ({m['detection_note']})" if m.get("detection_note") else "")
-    conf = "yes" if m.get("confirmed") else "partly (see meta.json)"
-    rows.append(f"| {sid} | {what} | {conf} | {res} |")
-table = "| id | change | confirmed | caught by (first failed obligation) |\n|---|---|---|---|\n" + "\n".join(rows)
+    missed_by = m.get("missed_by", [])
+    if caught and missed_by:
+        res += f" (not by {', '.join(missed_by)})"
+    conf = "yes" if m.get("confirmed") else "partly"
+    rows.append(f"| {sid} | {what} | {conf} | {res} | {cob or '-'} | {bnd or '-'} |")
+head = (f"{len(rows)} changes: {n_contract} fail at least one contract obligation, {n_bounded_only} are reported only by a bounded "
+        f"stand-in, {n_missed} are missed.\n\n")
+table = head + "| id | change | confirmed | reported by | first contract obligation failed | first bounded class |\n|---|---|---|---|---|---|\n" + "\n".join(rows)
 p = V + "/DESIGN.md"
 s = open(p).read()
 a, b = "<!-- SEEDTABLE -->", "<!-- /SEEDTABLE -->"
 if a in s:
     s = s[:s.index(a) + len(a)] + "\n" + table + "\n" + s[s.index(b):]
     open(p, "w").write(s)
-print(len(rows), "rows")
+print(len(rows), "rows;", n_contract, "contract,", n_bounded_only, "bounded only,", n_missed, "missed")
